@@ -142,6 +142,7 @@ def run(program, res, tier):
     c05._s9_total_user_functions(program, Relabel(res, {"*": "C01-S5"}))
     c05.sql_floor_division_rule(program, res, rule="C01-S5")
     c05.sqlite_arithmetic_tables(program, res, rule="C01-S5")
+    c05.sql_template_grouping_rule(program, res, rule="C01-S5", dialects={"SQLiteModel"})
     _s6(program, res)
     res.rule("C01-S7", "comparison operators agree with Pandas on missing operands")
     comparison_null_rule(program, res)
